@@ -160,7 +160,7 @@ func (evictcapEngine) Generate(p *sim.Plan, g *sim.Rng) {
 	if g.Bool(0.3) {
 		p.FaultRate = 0
 	} else {
-		p.FaultRate = []float64{0.03, 0.08, 0.2}[g.Intn(3)]
+		p.FaultRate = []float64{0.05, 0.15, 0.3}[g.Intn(3)]
 		kinds := []string{"err-before", "429", "404"}
 		for _, k := range kinds {
 			if g.Bool(0.5) {
@@ -188,6 +188,7 @@ type ecRec struct {
 	attempts int // API calls made on behalf of this request
 	accepted int // ... of which the API accepted
 	pending  bool
+	failed   bool // an API call of this request was rejected
 	apiErr   string
 }
 
@@ -214,6 +215,9 @@ type ecSim struct {
 	invoked   map[string]int
 	inflight  map[string]int
 	pendingNA map[string]int // in flight and not (yet) accepted by the API
+	failing   map[string]int // in flight with a rejected API call
+	failCount map[string]int // rejected API calls so far
+	monoLower map[string]int // largest value a finished read of the counter returned (since the last failed API call on it)
 	cum       map[string]int // accepted over all cycles (the inner PodEvictor of the limiter wiring is never reset)
 	nextID    int
 	cycle     int
@@ -322,23 +326,36 @@ func (h *ecSim) react(action clienttesting.Action) (bool, runtime.Object, error)
 	if ev.Namespace != rec.ns || ev.Name != rec.name || action.GetNamespace() != rec.ns {
 		h.r.Fail("wrong-eviction-target", h.cfg.Subject, "request #%d for pod %s/%s produced an eviction of %s (action namespace %s)", rec.id, rec.ns, rec.name, key, action.GetNamespace())
 	}
+	fail := func() {
+		if !rec.failed {
+			rec.failed = true
+			for _, k := range rec.keys {
+				h.failing[k]++
+				h.failCount[k]++
+			}
+		}
+	}
 	switch h.r.Fault("evict-api", "err-before", "429", "404") {
 	case "err-before":
+		fail()
 		rec.apiErr = "500"
 		h.r.Event("api #%d %s -> 500", rec.id, key)
 		return true, nil, apierrors.NewInternalError(fmt.Errorf("injected: etcd request timed out"))
 	case "429":
+		fail()
 		rec.apiErr = "429"
 		h.r.Event("api #%d %s -> 429", rec.id, key)
 		return true, nil, apierrors.NewTooManyRequests("Cannot evict pod as it would violate the pod's disruption budget.", 0)
 	case "404":
 		// the pod was deleted by somebody else just before the request arrived
 		delete(h.exists, key)
+		fail()
 		rec.apiErr = "404"
 		h.r.Event("api #%d %s -> 404 (vanished)", rec.id, key)
 		return true, nil, apierrors.NewNotFound(ecPodGR, ev.Name)
 	}
 	if !h.exists[key] {
+		fail()
 		rec.apiErr = "404"
 		h.r.Probe("api-404-pod-already-gone")
 		h.r.Event("api #%d %s -> 404", rec.id, key)
@@ -523,6 +540,13 @@ func (h *ecSim) evictOp(op ecOp) {
 		}
 	}
 	rec.pending = false
+	if rec.failed {
+		// an implementation that reserves before the call and rolls back after a failed call may legitimately show a counter going back
+		for _, k := range rec.keys {
+			h.monoLower[k] = 0
+			h.failing[k]--
+		}
+	}
 	r.Event("return #%d -> %v attempts=%d accepted=%d %s", rec.id, rec.ok, rec.attempts, rec.accepted, rec.apiErr)
 	r.Sample("evict #%d actor %d pod %s/%s node %q -> %v (api calls %d, accepted %d %s)", rec.id, rec.actor, rec.ns, rec.name, rec.node, rec.ok, rec.attempts, rec.accepted, rec.apiErr)
 	r.OpDone()
@@ -553,8 +577,13 @@ func (h *ecSim) evictOp(op ecOp) {
 					headroom = false
 				}
 			}
-			if headroom {
-				r.Probe("refused-although-headroom") // not part of the statement (safety only): counted, never failed
+			if headroom && !h.cfg.DryRun && rec.node != "" {
+				// not part of the statement (safety only): counted, never failed
+				if sequential {
+					r.Probe("refused-although-headroom-sequential")
+				} else {
+					r.Probe("refused-although-headroom-concurrent")
+				}
 			}
 		} else {
 			r.Probe("api-call-failed")
@@ -609,9 +638,17 @@ func (h *ecSim) readOp(op ecOp) {
 		r.OpSkipped()
 		return
 	}
+	// a concurrent read may or may not include the evictions that are in flight: it must lie between the successful
+	// evictions that had returned (and the earlier reads of this counter) when it started, and the evictions issued or in flight when it ends
 	lower := h.completed[key]
+	prev, fails, quiet := h.monoLower[key], h.failCount[key], h.failing[key] == 0
 	v := h.counter(key)
-	upper := h.acc[key]
+	upper := h.acc[key] + h.pendingNA[key]
+	// monotonic between reads, unless a request on this counter had an API call rejected meanwhile (possible roll-back of a reservation)
+	mono := quiet && h.failing[key] == 0 && fails == h.failCount[key]
+	if mono && v > h.monoLower[key] {
+		h.monoLower[key] = v
+	}
 	if h.cfg.DryRun {
 		// dry-run issues nothing; an implementation may count the simulated evictions it granted
 		lower, upper = 0, h.invoked[key]
@@ -622,6 +659,9 @@ func (h *ecSim) readOp(op ecOp) {
 	r.OracleEval()
 	if v < lower {
 		r.Fail("counter-read", h.cfg.Subject+"/below-completed", "counter %s read %d although %d successful evictions on it had already returned", key, v, lower)
+	}
+	if mono && v < prev {
+		r.Fail("counter-read", h.cfg.Subject+"/went-backwards", "counter %s read %d after an earlier read had returned %d (no eviction on it failed in between)", key, v, prev)
 	}
 	if v > upper {
 		r.Fail("counter-read", h.cfg.Subject+"/above-issued", "counter %s read %d although only %d evictions on it had been issued", key, v, upper)
@@ -739,7 +779,7 @@ func (evictcapEngine) Execute(r *sim.Run) {
 	for ci, cyc := range cycles {
 		h.cycle = ci
 		h.acc, h.granted, h.completed, h.invoked = map[string]int{}, map[string]int{}, map[string]int{}, map[string]int{}
-		h.inflight, h.pendingNA = map[string]int{}, map[string]int{}
+		h.inflight, h.pendingNA, h.monoLower, h.failing, h.failCount = map[string]int{}, map[string]int{}, map[string]int{}, map[string]int{}, map[string]int{}
 		h.apiLog = nil
 		if ci > 0 {
 			// workload controllers recreate some of the evicted pods between cycles
